@@ -15,7 +15,7 @@ pub struct Opts {
     pub allow_partials: bool,
     pub allow_tablerow: bool,
     pub allow_toplevel_interrupt: bool,
-    /// probability (in 1/100) that an expression names the never-defined variable `u`
+    /// probability (in 1/1000) that an expression names the never-defined variable `u`
     pub undefined_pct: u32,
     pub allow_envdump: bool,
     /// partial names may be given through the variable `pn` (main template only: a partial
@@ -66,6 +66,15 @@ impl<'a> Gen<'a> {
         self.rng.choose(&NAMES).to_string()
     }
 
+    /// assignment targets: mostly the string `c` and the initially undefined `e`, sometimes any
+    fn target(&mut self) -> String {
+        match self.rng.below(8) {
+            0 => self.name(),
+            1..=3 => "e".to_string(),
+            _ => "c".to_string(),
+        }
+    }
+
     pub fn scalar_lit(&mut self) -> RVal {
         match self.rng.below(8) {
             0 => RVal::Int(self.rng.range(-3, 12)),
@@ -80,7 +89,7 @@ impl<'a> Gen<'a> {
     }
 
     pub fn expr(&mut self, loop_vars: &[String]) -> Expr {
-        if self.rng.chance(self.o.undefined_pct, 100) {
+        if self.rng.chance(self.o.undefined_pct, 1000) {
             return Expr::var("u");
         }
         match self.rng.below(10) {
@@ -94,18 +103,15 @@ impl<'a> Gen<'a> {
                 Path::name("forloop").dot(self.rng.choose(&["index", "index0", "rindex", "first", "last", "length"])),
             ),
             8 => {
-                let n = self.name();
-                let seg = match self.rng.below(5) {
-                    0 => Seg::Dot("size".into()),
-                    1 => Seg::Dot("first".into()),
-                    2 => Seg::Lit(RVal::Int(self.rng.range(-2, 2))),
-                    3 => Seg::Dot("k".into()),
-                    _ => Seg::Var(Path::name(&self.name())),
-                };
-                Expr::Var(Path {
-                    root: n,
-                    segs: vec![seg],
-                })
+                // typed path steps: `a` is (initially) an array, `d` an object with key k
+                match self.rng.below(6) {
+                    0 => Expr::Var(Path::name("a").dot("size")),
+                    1 => Expr::Var(Path::name("a").dot(self.rng.choose(&["first", "last"]))),
+                    2 => Expr::Var(Path { root: "a".into(), segs: vec![Seg::Lit(RVal::Int(self.rng.range(-1, 1)))] }),
+                    3 => Expr::Var(Path::name("d").dot("k")),
+                    4 => Expr::Var(Path { root: "a".into(), segs: vec![Seg::Var(Path::name("b"))] }),
+                    _ => Expr::Var(Path::name("c").dot("size")),
+                }
             }
             _ => Expr::var(&self.name()),
         }
@@ -169,10 +175,12 @@ impl<'a> Gen<'a> {
     }
 
     fn coll(&mut self, lv: &[String]) -> Coll {
-        match self.rng.below(6) {
+        match self.rng.below(12) {
             0 => Coll::Range(Expr::int(self.rng.range(0, 2)), Expr::int(self.rng.range(1, 4))),
-            1 => Coll::Range(Expr::int(1), self.expr(lv)),
-            _ => Coll::Expr(Expr::var(&self.name())),
+            1 => Coll::Range(Expr::int(1), Expr::var("b")),
+            2 => Coll::Expr(self.expr(lv)),
+            3 => Coll::Expr(Expr::var("d")),
+            _ => Coll::Expr(Expr::var("a")),
         }
     }
 
@@ -217,19 +225,19 @@ impl<'a> Gen<'a> {
                     Node::Out(e, f)
                 }
                 9..=10 => {
-                    let n = self.name();
+                    let n = self.target();
                     let e = self.expr(lv);
                     let f = self.filters(lv);
                     Node::Assign(n, e, f)
                 }
                 11 if !deep => {
-                    let n = self.name();
+                    let n = self.target();
                     Node::Capture(n, self.block(depth + 1, lv))
                 }
                 12 => Node::Incr(self.name()),
                 13 => Node::Decr(self.name()),
                 14..=16 if !deep => {
-                    let var = self.rng.choose(&["i", "j", "a"]).to_string();
+                    let var = self.rng.choose(&["i", "j", "i", "c"]).to_string();
                     let coll = self.coll(lv);
                     let limit = if self.rng.chance(1, 4) {
                         Some(Expr::int(self.rng.range(0, 3)))
@@ -354,7 +362,18 @@ impl<'a> Gen<'a> {
                 }
                 28 if self.o.allow_partials => {
                     let name = self.partial_name(lv);
-                    let args = self.args(lv);
+                    // render isolates the partial: usually hand it every name so that its body
+                    // (which reads a..d) gets past its first output
+                    let args = if self.rng.chance(3, 4) {
+                        let mut v: Vec<(String, Expr)> = NAMES.iter().map(|n| (n.to_string(), Expr::var(n))).collect();
+                        if self.rng.chance(1, 3) {
+                            let k = self.rng.below(v.len());
+                            v[k].1 = self.expr(lv);
+                        }
+                        v
+                    } else {
+                        self.args(lv)
+                    };
                     let mode = match self.rng.below(4) {
                         0 => RenderMode::With(self.expr(lv), self.name()),
                         1 => RenderMode::For(self.coll(lv), self.name()),
@@ -371,9 +390,24 @@ impl<'a> Gen<'a> {
     /// data object binding every name in NAMES (never `u`), plus `pn` (a partial name) and `g2`
     pub fn data(&mut self) -> RVal {
         let mut kv: Vec<(String, RVal)> = Vec::new();
-        for n in NAMES {
-            kv.push((n.to_string(), self.value(0)));
-        }
+        let n = self.rng.below(5);
+        let strings = self.rng.chance(1, 3);
+        let a = arr((0..n)
+            .map(|i| {
+                if strings {
+                    s(self.rng.choose(&["x", "y", "hello world", "é"]))
+                } else if self.rng.chance(1, 8) {
+                    self.value(1)
+                } else {
+                    RVal::Int(i as i64 + self.rng.range(0, 2))
+                }
+            })
+            .collect());
+        kv.push(("a".into(), a));
+        kv.push(("b".into(), RVal::Int(self.rng.range(0, 5))));
+        kv.push(("c".into(), s(self.rng.choose(&["", "a", "hello world", "é", "3"]))));
+        let d = if self.rng.chance(1, 6) { self.value(0) } else { obj(vec![("k", self.value(1))]) };
+        kv.push(("d".into(), d));
         let pn = if self.o.partials.is_empty() {
             "nope".to_string()
         } else {
@@ -458,5 +492,44 @@ pub fn scenario(rng: &mut Rng, n_partials: usize, with_broken: bool, opts: &Opts
         main,
         partials,
         data,
+    }
+}
+
+/// A pool for history checks: several main templates and data objects over one partial set.
+#[derive(Clone, Debug)]
+pub struct Pool {
+    pub partials: Vec<(String, String)>,
+    pub mains: Vec<String>,
+    pub datas: Vec<RVal>,
+}
+
+pub fn pool(rng: &mut Rng, n_main: usize, n_data: usize, n_partials: usize, with_broken: bool, opts: &Opts) -> Pool {
+    let first = scenario(rng, n_partials, with_broken, opts);
+    let mut all_names: Vec<String> = first.partials.iter().map(|(n, _)| n.clone()).collect();
+    if with_broken && n_partials > 0 {
+        all_names.push("missing".into());
+    }
+    let mut mains = vec![first.main.clone()];
+    let mut datas = vec![first.data.clone()];
+    let mut style = Style::random(rng.fork(78));
+    for _ in 1..n_main {
+        let mut o = opts.clone();
+        o.partials = all_names.clone();
+        o.allow_partials = opts.allow_partials && !all_names.is_empty();
+        o.dynamic_names = true;
+        let mut g = Gen::new(rng, o);
+        let body = g.block(0, &[]);
+        mains.push(to_source(&body, &mut style));
+    }
+    for _ in 1..n_data {
+        let mut o = opts.clone();
+        o.partials = first.partials.iter().map(|(n, _)| n.clone()).collect();
+        let mut g = Gen::new(rng, o);
+        datas.push(g.data());
+    }
+    Pool {
+        partials: first.partials,
+        mains,
+        datas,
     }
 }
